@@ -2,10 +2,12 @@ import NTV.Proofs.Lemmas.HenselAlg
 import NTV.Proofs.Lemmas.HenselModel
 import NTV.Proofs.Lemmas.PolyModBasics
 import NTV.Proofs.Lemmas.PolyDivremMod
+import NTV.Proofs.Lemmas.HenselMulti
 import NTV.Model.PolyModHensel
-/-! # C11 — Hensel lifting: what is proved so far.
-The conclusion of the property (monic, degrees, congruences modulo p and p^e) is certified on every
-explored case by the oracle. -/
+/-! # C11 — Hensel lifting.
+First the building blocks (algebraic core, one call of `hensel_lift`, the division contract); the
+property itself is proved in full at the end of the file: `witness_spec`, `lift_two_spec`,
+`lift_factorization_spec`. -/
 open Polynomial
 namespace NTV.C11
 
@@ -47,5 +49,135 @@ theorem division_contract (a b : List Int) (p : Nat) (hp : p.Prime) (ha : a ≠ 
     (NTV.PolyMod.polyDivrem a b p).2.length < b.length ∧
     NTV.PolyG.Canon (NTV.PolyMod.polyDivrem a b p).1 ∧ NTV.PolyG.Canon (NTV.PolyMod.polyDivrem a b p).2 :=
   NTV.PolyMod.polyDivrem_contract_prime a b p hp ha hb hab hlc
+
+/-! ## The property, in full
+
+Notation: coefficient lists are low degree first; `toPoly l` is the polynomial of ℤ[X] a list denotes;
+`lc l` is the last coefficient (`lc l = 1` says: non-empty and monic, hence canonical); `Canon l` = no
+trailing zero; `Reduced m l` = all coefficients in [0, m); `PCong m F G` = F ≡ G modulo m in ℤ[X]. -/
+open NTV.PolyG NTV.PolyMod NTV.Hensel
+
+/-- C11 (Bezout witness). For every prime p and canonical a, b with coefficients in [0, p) that are
+coprime over F_p, `poly_coprime_witness(a, b, p)` raises no error (the gcd found is a non-zero constant,
+the fuel of the model suffices) and returns u, v with a·u + b·v ≡ 1 (mod p); u, v are canonical with
+coefficients in [0, p). -/
+theorem witness_spec (p : Nat) (hp : p.Prime) (a b : List Int) (hca : Canon a) (hcb : Canon b)
+    (hra : Reduced (p : Int) a) (hrb : Reduced (p : Int) b)
+    (hco : ∃ U V : ℤ[X], PCong (p : Int) (toPoly a * U + toPoly b * V) 1) :
+    ∃ u v, polyCoprimeWitness a b p = .ok (u, v) ∧
+      PCong (p : Int) (toPoly a * toPoly u + toPoly b * toPoly v) 1 ∧
+      Reduced (p : Int) u ∧ Reduced (p : Int) v ∧ Canon u ∧ Canon v :=
+  polyCoprimeWitness_spec p hp a b (lcOK_of_reduced _ a hca hra) (lcOK_of_reduced _ b hcb hrb)
+    ((coprime_iff_map p _ _).mp hco)
+
+/-- C11 (Bezout witness, as the lift uses it): the same for arguments that are not reduced modulo p
+(the lift passes products reduced modulo p^k): it suffices that p does not divide the leading
+coefficients. -/
+theorem witness_spec_unreduced (p : Nat) (hp : p.Prime) (a b : List Int)
+    (hla : a ≠ [] → ¬ (p : Int) ∣ lc a) (hlb : b ≠ [] → ¬ (p : Int) ∣ lc b)
+    (hco : ∃ U V : ℤ[X], PCong (p : Int) (toPoly a * U + toPoly b * V) 1) :
+    ∃ u v, polyCoprimeWitness a b p = .ok (u, v) ∧
+      PCong (p : Int) (toPoly a * toPoly u + toPoly b * toPoly v) 1 ∧
+      Reduced (p : Int) u ∧ Reduced (p : Int) v ∧ Canon u ∧ Canon v :=
+  polyCoprimeWitness_spec p hp a b hla hlb ((coprime_iff_map p _ _).mp hco)
+
+/-- the hypotheses of `witness_spec` hold for x + 2 and x² + 3x + 4 over F_5 (the factors of x³ − 2),
+and the model returns u = 2x + 2, v = 3 -/
+example : ∃ u v, polyCoprimeWitness [2, 1] [4, 3, 1] (5 : Nat) = .ok (u, v) ∧
+    PCong ((5 : Nat) : Int) (toPoly [2, 1] * toPoly u + toPoly [4, 3, 1] * toPoly v) 1 ∧
+    Reduced ((5 : Nat) : Int) u ∧ Reduced ((5 : Nat) : Int) v ∧ Canon u ∧ Canon v := by
+  refine witness_spec 5 (by norm_num) [2, 1] [4, 3, 1] (by intro h; simp) (by intro h; simp) ?_ ?_ ?_
+  · intro j; rcases j with _ | _ | j <;> simp
+  · intro j; rcases j with _ | _ | _ | j <;> simp
+  · exact ⟨toPoly [-3, -3], toPoly [3], 1, by simp only [toPoly]; simp only [map_neg, map_ofNat, map_one, Nat.cast_ofNat]; ring⟩
+example : polyCoprimeWitness [2, 1] [4, 3, 1] 5 = .ok ([2, 2], [3]) := by decide +kernel
+
+/-- C11 (one lifting step, shape). For all integers p and q > 1 and all lists with a monic:
+the first polynomial a₁ returned by `hensel_lift(p, q, c, a, b, u, v)` is monic of the degree of a, and
+a₁, b₁ are canonical with coefficients in [0, q·gcd(p, q)). If moreover c is monic of degree
+deg a + deg b, c ≡ a·b (mod q) and a·u + b·v ≡ 1 (mod gcd(p, q)) — the hypotheses under which
+`henselLift_full` gives c ≡ a₁·b₁ (mod q·gcd(p,q)), a₁ ≡ a, b₁ ≡ b (mod q) — then b₁ is monic of the
+degree of b. -/
+theorem lift_two_spec (p q : Int) (hq : 1 < q) (c a b u v : List Int) (ha : lc a = 1) :
+    (lc (henselLift p q c a b u v).1 = 1 ∧ (henselLift p q c a b u v).1.length = a.length ∧
+      Canon (henselLift p q c a b u v).1 ∧ Canon (henselLift p q c a b u v).2.1 ∧
+      Reduced (q * (Int.gcd p q : Int)) (henselLift p q c a b u v).1 ∧
+      Reduced (q * (Int.gcd p q : Int)) (henselLift p q c a b u v).2.1) ∧
+    (lc c = 1 → c.length + 1 = a.length + b.length →
+      PCong q (toPoly c) (toPoly a * toPoly b) →
+      PCong (Int.gcd p q : Int) (toPoly a * toPoly u + toPoly b * toPoly v) 1 →
+      lc (henselLift p q c a b u v).2.1 = 1 ∧ (henselLift p q c a b u v).2.1.length = b.length) := by
+  obtain ⟨s1, s2, s3, s4, s5⟩ := henselLift_shape p q hq c a b u v ha
+  exact ⟨⟨s1, s2, (monic_toPoly _ s1).2.2.2, s5, s3, s4⟩,
+    fun hcm hlen hc huv => henselLift_shape_b p q hq c a b u v ha hcm hlen hc huv⟩
+
+/-- Cohen's example (the Rust unit test `hensel_lift_works_0`): C = X² + 2X + 3, A = X − 3, B = X − 4,
+p = q = 9: the hypotheses hold and the result is (X + 60)(X + 23) modulo 81 -/
+example : lc ([-3, 1] : List Int) = 1 ∧ lc ([3, 2, 1] : List Int) = 1 ∧
+    PCong 9 (toPoly [3, 2, 1]) (toPoly [-3, 1] * toPoly [-4, 1]) ∧
+    PCong (Int.gcd 9 9 : Int) (toPoly [-3, 1] * toPoly [1] + toPoly [-4, 1] * toPoly [-1]) 1 := by
+  refine ⟨by decide, by decide, ⟨toPoly [-1, 1], ?_⟩, ⟨0, ?_⟩⟩
+  · simp only [toPoly]; simp only [map_neg, map_ofNat, map_one]; ring
+  · simp only [toPoly]; simp only [map_neg, map_ofNat, map_one]; ring
+example : henselLift 9 9 [3, 2, 1] [-3, 1] [-4, 1] [1] [-1] = ([60, 1], [23, 1], 81) := by decide +kernel
+
+/-- **C11 (the property).** Let p be prime, e ≥ 1, c ∈ ℤ[x] with p ∤ lc(c), and f₁, …, f_k (k ≥ 1) monic
+with coefficients in [0, p), pairwise coprime over F_p (what "distinct monic irreducible" gives; it
+contains "c squarefree mod p"), with c ≡ lc(c)·∏ fᵢ (mod p). Then `lift_factorization(p, e, c, [f₁..f_k])`
+raises no error and returns g₁, …, g_k, in this order, with: gᵢ monic, canonical, coefficients in
+[0, p^e), deg gᵢ = deg fᵢ, gᵢ ≡ fᵢ (mod p), and lc(c)·∏ gᵢ ≡ c (mod p^e)
+(equivalently ∏ gᵢ ≡ c·lc(c)⁻¹). -/
+theorem lift_factorization_spec (p : Nat) (hp : p.Prime) (e : Nat) (he : 1 ≤ e) (c : List Int)
+    (hlc : ¬ (p : Int) ∣ lc c) (factors : List (List Int)) (hne : factors ≠ [])
+    (hmon : ∀ f ∈ factors, lc f = 1) (hred : ∀ f ∈ factors, Reduced (p : Int) f)
+    (hcop : factors.Pairwise (fun f g => ∃ U V : ℤ[X], PCong (p : Int) (toPoly f * U + toPoly g * V) 1))
+    (hprod : PCong (p : Int) (toPoly c) (C (lc c) * (factors.map toPoly).prod)) :
+    ∃ gs, liftFactorization p e c factors = .ok gs ∧ gs.length = factors.length ∧
+      List.Forall₂ (fun g f => lc g = 1 ∧ Canon g ∧ Reduced ((p : Int) ^ e) g ∧ g.length = f.length ∧
+        PCong (p : Int) (toPoly g) (toPoly f)) gs factors ∧
+      PCong ((p : Int) ^ e) (C (lc c) * (gs.map toPoly).prod) (toPoly c) := by
+  have hcop' : (factors.map (mapP p)).Pairwise IsCoprime := by
+    rw [List.pairwise_map]
+    exact hcop.imp (fun h => (coprime_iff_map p _ _).mp h)
+  obtain ⟨gs, h1, h2, h3⟩ := liftFactorization_spec' p hp e he c hlc factors hne hmon hred hcop' hprod
+  exact ⟨gs, h1, h2.length_eq, h2, h3⟩
+
+/-- the same with the product made monic: ∏ gᵢ ≡ c·w (mod p^e) for every inverse w of lc(c) modulo p^e -/
+theorem lift_factorization_monic (p : Nat) (e : Nat) (c : List Int) (gs : List (List Int)) (w : Int)
+    (hw : lc c * w ≡ 1 [ZMOD (p : Int) ^ e])
+    (h : PCong ((p : Int) ^ e) (C (lc c) * (gs.map toPoly).prod) (toPoly c)) :
+    PCong ((p : Int) ^ e) ((gs.map toPoly).prod) (C w * toPoly c) := by
+  have h1 := PCong.mul (PCong.refl ((p : Int) ^ e) (C w)) h
+  refine PCong.trans ?_ h1
+  have e1 : C w * (C (lc c) * (gs.map toPoly).prod) = C (lc c * w) * (gs.map toPoly).prod := by
+    rw [C_mul]; ring
+  rw [e1]
+  have := PCong.mul (pcong_C hw) (PCong.refl ((p : Int) ^ e) (gs.map toPoly).prod)
+  simpa using this.symm
+
+/-- the Rust unit test `lift_factorization_works_0`: x³ − 2 ≡ (x + 2)(x² + 3x + 4) (mod 5), e = 3:
+the hypotheses of `lift_factorization_spec` hold, and the model returns (x + 72)(x² + 53x + 59) -/
+example : ∃ gs, liftFactorization (5 : Nat) 3 [-2, 0, 0, 1] [[2, 1], [4, 3, 1]] = .ok gs ∧ gs.length = 2 ∧
+    List.Forall₂ (fun g f => lc g = 1 ∧ Canon g ∧ Reduced (((5 : Nat) : Int) ^ 3) g ∧ g.length = f.length ∧
+      PCong ((5 : Nat) : Int) (toPoly g) (toPoly f)) gs [[2, 1], [4, 3, 1]] ∧
+    PCong (((5 : Nat) : Int) ^ 3) (C (lc [-2, 0, 0, 1]) * (gs.map toPoly).prod) (toPoly [-2, 0, 0, 1]) := by
+  refine lift_factorization_spec 5 (by norm_num) 3 (by norm_num) [-2, 0, 0, 1] (by decide)
+    [[2, 1], [4, 3, 1]] (by simp) (by decide) ?_ ?_ ?_
+  · intro f hf j
+    simp only [List.mem_cons, List.not_mem_nil, or_false] at hf
+    rcases hf with rfl | rfl
+    · rcases j with _ | _ | j <;> simp
+    · rcases j with _ | _ | _ | j <;> simp
+  · simp only [List.pairwise_cons, List.mem_cons, List.not_mem_nil, or_false, forall_eq, false_imp_iff,
+      implies_true, List.Pairwise.nil, and_true]
+    exact ⟨toPoly [-3, -3], toPoly [3], 1, by simp only [toPoly]; simp only [map_neg, map_ofNat, map_one, Nat.cast_ofNat]; ring⟩
+  · refine ⟨toPoly [-2, -2, -1], ?_⟩
+    simp only [lc, List.getLastD_cons, List.getLastD_nil, List.map_cons, List.map_nil, List.prod_cons, List.prod_nil, toPoly]
+    simp only [map_neg, map_ofNat, map_one, map_zero, Nat.cast_ofNat]; ring
+example : liftFactorization 5 3 [-2, 0, 0, 1] [[2, 1], [4, 3, 1]] = .ok [[72, 1], [59, 53, 1]] := by
+  decide +kernel
+/-- the factors come back in the order they were given -/
+example : liftFactorization 5 3 [-2, 0, 0, 1] [[4, 3, 1], [2, 1]] = .ok [[59, 53, 1], [72, 1]] := by
+  decide +kernel
 
 end NTV.C11
